@@ -79,11 +79,15 @@ func runCase(c Case) caseResult {
 		}
 		vm.StrictDeviations = c.Opt.StrictDev
 		vm.DefaultPolicy = c.Opt.Policy
-		r1 := vm.Replay(c.Sc, v.Choices)
-		r2 := vm.Replay(c.Sc, v.Choices)
+		// scenarios keep observations in closures: judge each replay before the next one runs
 		m1, m2 := "", ""
+		r1 := vm.Replay(c.Sc, v.Choices)
 		if c.Sc.Check != nil {
-			m1, m2 = c.Sc.Check(r1), c.Sc.Check(r2)
+			m1 = c.Sc.Check(r1)
+		}
+		r2 := vm.Replay(c.Sc, v.Choices)
+		if c.Sc.Check != nil {
+			m2 = c.Sc.Check(r2)
 		}
 		if r1.TraceHash() != r2.TraceHash() || m1 != m2 || !containsSig(m1, firstLine(v.Msg)) {
 			cr.Infra = fmt.Sprintf("scenario %s: violation %q did not replay deterministically (%q / %q)", c.Sc.Name, firstLine(v.Msg), firstLine(m1), firstLine(m2))
